@@ -9,7 +9,7 @@ def c01_suites(tier):
 
 def c02_suites(tier):
     return [gens.PNStringSuite(), gens.PermuteSuite(), gens.MethodRowsSuite(with_calls=False, with_reset=True), gens.GenHistorySuite(),
-            gens.XmlMethodSuite()]
+            gens.XmlMethodSuite(), gens.CreateRowGenSuite()]
 
 
 def c03_suites(tier):
@@ -17,7 +17,7 @@ def c03_suites(tier):
 
 
 def c04_suites(tier):
-    return [gens.MethodRowsSuite(with_calls=True), gens.GenHistorySuite()]
+    return [gens.MethodRowsSuite(with_calls=True), gens.GenHistorySuite(), gens.CreateRowGenSuite()]
 
 
 def c05_suites(tier):
@@ -78,7 +78,7 @@ def c10_suites(tier):
 
 
 def c18_suites(tier):
-    return [parsing.ParseSuite(), gens.PNStringSuite(), gens.StartRowSuite()]
+    return [parsing.ParseSuite(), gens.PNStringSuite(), gens.StartRowSuite(), gens.CreateRowGenSuite()]
 
 
 def c19_suites(tier):
